@@ -210,6 +210,40 @@ CLAIMED['C17'] = dict(
               '+ differential correspondence of cited positions',
     ref='DESIGN.md 7 (C17)')
 
+CLAIMED['C06'] = dict(
+    text='Lean 4 theorems on the representer model: lists/dicts/objects get the default collection '
+         'tags, scalars the core tag of their kind, attribute keys come in the order of the attribute '
+         'list (parameters in declaration order, then extras), enum members by name; and, by the '
+         'guarded reflective regex checker on the regenerated Dumper table, every str(int), every '
+         'represented float (finite, .nan, .inf, -.inf), true/false and null resolves to its own tag - '
+         'so the serializer marks them implicit and no tag is written. Purity/determinism are '
+         'definitional for the model and checked on the real code. Tie: represented node trees and '
+         'sweeten traces of the real Dumper vs the model on generated values; the dumped text must be '
+         'one tag-free document that a plain YAML parser reads back as the projection; object graph '
+         'snapshot before/after; two dumps identical.',
+    note=NOTE_COMMON + 'the emitter writes implicit scalars without tag and quotes strings whose plain '
+         'form resolves differently (PyYAML emitter analysis, not modelled).',
+    technique='Lean 4 proofs (representer structure; reflective resolver lemmas by decide +kernel on '
+              'the regenerated Dumper table) + differential correspondence + plain-parser projection '
+              'oracle',
+    ref='DESIGN.md 7 (C06)')
+CLAIMED['C05'] = dict(
+    text='Lean 4 theorems, scalar/node level: for every string, if the Dumper\'s resolver says str (the '
+         'emitter may write it plain) the Loader\'s resolver says str too (combining the C09 '
+         'characterisation, reflective checks on the regenerated tables and a structural lemma that the '
+         'other Loader entries are entries of the Dumper table); every represented int / float / '
+         'bool / null re-reads with the same tag under the Loader table; enum members and string-likes '
+         'construct back from the node the loader tags with their class; dash/underscore renaming is '
+         'an inverse pair. The text layer is assumption A-text. On the real code load(dumps(v)) must be '
+         'structurally equal for generated values of unambiguous class models (adversarial strings, '
+         'non-finite floats, dates, paths, enums, string-like keys, extras, shared sub-objects, '
+         'inverse sweeten/savorize pairs).',
+    note=NOTE_COMMON + 'assumption A-text: PyYAML emitter + scanner round-trip scalar content, write '
+         'implicit scalars plain and quote the others; str(C(s)) == s for string-like classes.',
+    technique='Lean 4 proofs (cross-table resolver implication by reflection + structure) + real '
+              'round-trip exploration',
+    ref='DESIGN.md 7 (C05)')
+
 NOT_YET = 'check not built yet in this round (planned proof: DESIGN.md section 7)'
 
 
